@@ -88,8 +88,26 @@ impl<T: Qcow2IoOps> Qcow2Dev<T> {
             Qcow2Info::get_max_l1_entries(h.size(), h.cluster_bits().try_into().unwrap()),
             1 << bs_shift,
         );
-        let rt_size = h.reftable_clusters() << h.cluster_bits();
+        let rt_size = h
+            .reftable_clusters()
+            .checked_shl(h.cluster_bits())
+            .unwrap_or(usize::MAX);
         let l1_entries = h.l1_table_entries() as u32;
+
+        // both tables are kept in ram as a whole: refuse sizes which no valid
+        // image can have, instead of allocating whatever the header claims
+        if rt_size == 0 || rt_size > Qcow2Header::MAX_REFCOUNT_TABLE_SIZE as usize {
+            return Err(format!("qcow2 refcount table size {rt_size} is invalid").into());
+        }
+        if l1_size == 0
+            || (l1_entries as usize) * std::mem::size_of::<u64>() > Qcow2Header::MAX_L1_SIZE as usize
+        {
+            return Err(format!(
+                "qcow2 l1 table is invalid: {l1_entries} entries for {} bytes",
+                h.size()
+            )
+            .into());
+        }
 
         log::info!(
             "l2 slice cache(bits: {} count {}), rb cache(bits: {} count {})",
